@@ -61,12 +61,18 @@ def run_case(case):
         o = len(term.scrollback) + top
         hist = [list(r) for r in term.tape()[:o]]
         scrolled_once = False
+        persistent = []
         nsteps = 0
         last_cursor_tape_row = o
         for step, op in enumerate(case["renders"]):
             nsteps += 1
             vals = [row_value(s) for s in op["rows"]]
-            array = [v for v, _ in vals]
+            if case.get("reuse"):
+                persistent[:] = [v for v, _ in vals]  # the caller keeps one list and edits it in place between renders
+                array = persistent
+                res.label("same_list_object_reused")
+            else:
+                array = [v for v, _ in vals]
             rows_cells = [c for _, c in vals]
             n = len(array)
             fit = h - top
@@ -151,13 +157,13 @@ def run_case(case):
 
 @st.composite
 def history(draw):
-    h, w = draw(st.integers(2, 6)), draw(st.integers(3, 8))
+    h, w = draw(st.one_of(st.integers(2, 6), st.integers(2, 6), st.sampled_from([10, 24]))), draw(st.one_of(st.integers(3, 8), st.integers(3, 8), st.sampled_from([20, 40])))
     nhist = draw(st.sampled_from([0, 0, 1, 2, h - 1, h - 1, h, h + 1, h + 4, max(h - 2, 0)]))
     case = {
         "h": h, "w": w,
         "history": [draw(st.text(alphabet="hist0123", min_size=0, max_size=w - 1)) for _ in range(nhist)],
         "junk_below": draw(st.sampled_from([0, 0, 0, 3, 7])),
-        "keep_last_line": draw(st.booleans()), "hide_cursor": draw(st.booleans()), "renders": [],
+        "keep_last_line": draw(st.booleans()), "hide_cursor": draw(st.booleans()), "reuse": draw(st.sampled_from([False, False, True])), "renders": [],
     }
     prev = []
     for _ in range(draw(st.integers(1, 8))):
